@@ -14,6 +14,24 @@ CHECKS = {
  "C06": dict(technique="runtime monitoring: verdict-lattice checker over every prefix of generated streams (purity P1-P3 on counting connections, N-monotonicity P4, fragment-safety P5)",
              text="For every generated stream and every prefix length the real matcher was evaluated on fresh preloaded connections; the five lattice rules were checked on all of them. One genuine fragmentation defect (winbox multi-chunk) is listed as a known finding; the http one was repaired.",
              note="Seeds are hand-written well-formed messages per matcher plus boundary mutations; time-dependent filters are pinned.", ref="3/C06"),
+ "C05": dict(technique="runtime monitoring: timed-history checker over scripted silent/trickle/flood clients (TCP and UDP) with one-sided never-early bound, scheduler-canary-guarded upper bound, byte-count cap and fails-closed trace check",
+             text="Held on every timed run: lower bound is sound against observer delay, upper bound is evaluated only under a quiet scheduler canary; covers timeouts 150 ms-2.5 s, four wall-clock phases, subroute/http/wrapper variants.",
+             note="UDP association end is observed from above only (matcher evaluation history); scripted transport stands in for kernel sockets.", ref="3/C05"),
+ "C07": dict(technique="runtime monitoring: differential monitor - hellos emitted by crypto/tls clients (and length-consistent mutations) are fed to a real crypto/tls server (reference ClientHelloInfo) and to MatchTLS with a capturing handshake sub-matcher; fields, placeholders, sni/alpn verdicts and all-prefix need-more are compared",
+             text="Agreement with go1.23.5 crypto/tls on every generated hello and mutation that the reference server accepts; the multi-record reassembly defect it found was repaired.",
+             note="Clients other than crypto/tls are represented only by mutations; one standard library version.", ref="3/C07"),
+ "C14": dict(technique="runtime monitoring: reference-model monitor - per-protocol generators (valid / single-field corruptions / filter configurations) judged by independent reference predicates written from the wire definitions; disagreements are violations, ambiguous classes abstain",
+             text="Real matcher verdict equalled the reference on every judged case for 17 matcher modules; abstentions are counted in the evidence. Consistency with my reading of the definitions, not a proof.",
+             note="References are hand-written; OpenVPN ts-now classes use the wall clock within +-10 s of generation (abstain 12-18 s).", ref="3/C14"),
+ "C15": dict(technique="runtime monitoring: generative differential monitor over the real Caddyfile adapter and loader (expected JSON printed independently from the documented field names; determinism; caddy.Validate; struct round trip)",
+             text="Every generated Caddyfile adapted to the expected JSON, deterministically, validated and round-tripped, except the listed public_key_algorithm finding.",
+             note="Expected-JSON printer is hand-written from struct tags/docs; tls_client_auth automate names skip provisioning (needs ACME).", ref="3/C15"),
+ "C16": dict(technique="runtime monitoring: scripted SOCKS5 sessions against the real handler with an RFC 1928/1929 reply oracle, a target accept log, and a syscall monitor (strace brackets per session: no connect/bind/listen for must-refuse sessions)",
+             text="Every must-refuse session was refused with no connect to the target and no bind/listen in its strace bracket; every permitted CONNECT was seen in the trace (proves the observer sees what it must).",
+             note="Resolver lookups for refused FQDN requests are observed, not judged; falls back to reply+accept-log monitors if strace is unavailable.", ref="3/C16"),
+ "C18": dict(technique="runtime monitoring: round-trip law checker (parse-serialise identity both ways, wrong-length rejection, panic monitor) over 21 exported codecs with enumerated lengths and boundary field values",
+             text="Laws L1-L3 held on every generated input for all codecs except the listed OpenVPN WrappedKey metadata finding; the rdp/wireguard/winbox wrong-length and username defects it found were repaired.",
+             note="Size bounds are taken from the wire layouts / module constants; plaintext sub-codecs are driven only on states reachable through FromBytes.", ref="3/C18"),
 }
 NOT_YET = {}
 ALL = ["C%02d" % i for i in range(1, 19)]
